@@ -407,6 +407,33 @@ func tallFamily(c *Ctx, prop string) {
 		runs = append(runs, run{append(append([]Op(nil), h...), Op{Kind: "undo"}), true})
 	}
 	c.Cov.Bound["two_deletion_blocks"] = fmt.Sprintf("N=%d, every disjoint non-empty S,T; %d runs", tdN, len(runs)-tdStart)
+	// three very long chains (300 blocks; only the final state and its undo are checked): 8-bit block
+	// or deletion counters wrap here
+	for _, policy := range []string{"oldest", "newest", "middle"} {
+		hist := []Op{{Kind: "block", Adds: 4}}
+		live := []int{0, 1, 2, 3}
+		n := 4
+		for b := 1; b < 300; b++ {
+			var dels []int
+			for k := 0; k < 2 && len(live) > 1; k++ {
+				idx := 0
+				switch policy {
+				case "newest":
+					idx = len(live) - 1
+				case "middle":
+					idx = len(live) / 2
+				}
+				dels = append(dels, live[idx])
+				live = append(live[:idx], live[idx+1:]...)
+			}
+			sortInts(dels)
+			hist = append(hist, Op{Kind: "block", Dels: dels, Adds: 2})
+			live = append(live, n, n+1)
+			n += 2
+		}
+		runs = append(runs, run{hist: hist})
+	}
+	c.Cov.Bound["long_chains"] = "3 chains of 300 blocks (final state and its undo)"
 	c.Cov.Bound["chains"] = fmt.Sprintf("%d chains of %d blocks", nChains, chainLen)
 	c.Cov.Bound["very_tall.N"] = fmt.Sprint(vtNs)
 	c.Cov.Bound["very_tall.runs"] = vtRuns
